@@ -268,8 +268,13 @@ def run(ctx):
             for d in tcfg.reaching_defs(nm.id).get(wn.id, set()):
                 da = tcfg.nodes[d].ast
                 v = da.value if isinstance(da, ast.Assign) and len(da.targets) == 1 and isinstance(da.targets[0], ast.Name) else None
-                pure = v is not None and ((isinstance(v, ast.Call) and isinstance(v.func, ast.Attribute) and v.func.attr == "format_map") or
-                                          (isinstance(v, ast.Call) and call_name(v) == "repr" and len(v.args) == 1 and norm(v.args[0]) == rec))
+                def _rendering(x):
+                    if isinstance(x, ast.IfExp):
+                        return _rendering(x.body) and _rendering(x.orelse)
+                    return (isinstance(x, ast.Call) and isinstance(x.func, ast.Attribute) and x.func.attr == "format_map") or \
+                        (isinstance(x, ast.Call) and call_name(x) == "repr" and len(x.args) == 1 and norm(x.args[0]) == rec)
+
+                pure = v is not None and _rendering(v)
                 ctx.check(pure, "R20.4", f"TextWriter.write:text-written:{norm(da)[:40] if da is not None else nm.id}", f"the text that is written is (re)defined by `{norm(da)[:70] if da is not None else '?'}` "
                           "after rendering: characters that come from field values are rewritten together with the template's own", da if da is not None else tw,
                           "buf = template.format_map(...) | repr(rec), written as it is", key="R20.4:TextWriter.write:rendering-rewritten")
